@@ -15,6 +15,10 @@
      * system-call level (strace -f): the same on openat/stat/rename/unlink/mkdir/write/getdents64/... with the
        window = flock(LOCK_SH|LOCK_EX) ... close(lockfd) of the same thread (markers for multifilesystem_nolock);
        execve of the hook only inside LOCK_EX
+   The request streams also run on storage states that only a CRASH produces (pseudo-request _CRASH: a forked server
+   process dies before the k-th file system mutation of a write request, then time passes), followed by read-only requests.
+   Storage side of tie T: Gen/StorageMut.v (translate/t_storagemut.py) = mutation sites reachable from each API operation,
+   Proofs/C10StorageMut.v checks them against sop_access.
    for both storage types, normally and with an ADVERSARY thread that takes the lock exclusively at every
    Release point of the serving thread (so that the _meta_cache / _etag_cache re-read becomes observable).
 """
@@ -290,7 +294,9 @@ def mon_syscalls(run, cwd):
 # ---------------------------------------------------------------------------------------------- the check
 def run(ctx):
     ctx.rule = ("request = one HTTP request of the seeded mix (all 12 methods, success and error exits, 8 REPORT kinds incl. "
-                "free-busy and sync with early unlock, every method as the first request of a fresh user with "
+                "free-busy and sync with early unlock -- also on storage states left by a server process that died at a chosen "
+                "file system mutation of a write request of every shape, aged 0 s .. 400 days, followed by read-only requests --, "
+                "every method as the first request of a fresh user with "
                 "[storage] predefined_collections configured, anonymous) run against the real server for storage type "
                 "multifilesystem / multifilesystem_nolock, normally or with an adversary thread taking the lock exclusively at "
                 "every Release point; under the rights policies owner_only / authenticated / from_file RrWw-on-every-path; distinct by (storage type, adversary, rights, method, status, api event stream); non-trivial = "
@@ -304,8 +310,23 @@ def run(ctx):
         "kernel flock semantics; one request per thread; the hook command is configured (worst case)",
     ]
     ctx.trusted.append("translate/t_skeleton.py (tie T for the handler skeletons, fail-closed) incl. its classification tables")
+    ctx.trusted.append("translate/t_storagemut.py (tie T for the storage operations: reachable file system mutation sites; syntactic, "
+                       "by-name call graph, path provenance cache/data) incl. its tables MUTATORS, OS_READONLY, CACHE_ROOTS")
     ctx.trusted.append("vlib/x_c10.py instrumentation (api wrappers, audit hook, adversary scheduler) and the strace projection of checks/C10.py")
     ok = ctx.prove()
+    # the storage-side table of tie T in words (the obligation itself is Proofs/C10StorageMut.v:Gen_storage_*_ok)
+    try:
+        from translate import t_storagemut
+        data, other = t_storagemut.analyse(core.REPO)
+        off = ["%s reaches %s" % r for r in data if r[0] not in WRITERS] + \
+              ["%s reaches %s" % r for r in other if r[0] in ("GetMeta", "Tag", "LastModified")]
+        ctx.extra["static_storage_mutations"] = dict(data_sites=len(data), other_sites=len(other), offending=off[:20])
+        if off:
+            ctx.notes.append("storage operations that are sufficient under the shared lock reach file system mutations outside "
+                             "the cache area (translate/t_storagemut.py): " + "; ".join(off[:8]))
+            ctx.log("static storage scan:", "; ".join(off[:8]))
+    except Exception as e:      # the translator's failure is already an obligation (translate:StorageMut)
+        ctx.extra["static_storage_mutations"] = "not available: %r" % (e,)
     with core.coq_lock():
         rc19, out19 = core.make(["Proofs/C19ParseFirst.vo"])
         hits = core.forbidden_scan(["Proofs/C19ParseFirst.v"])
@@ -349,6 +370,8 @@ def run(ctx):
         r2 = _random.Random(seed)
         reqs = [dict(x) for x in setup] + x_c10.first_login_block(name.replace("_", "")) + x_c10.gen_requests(r2, count)
         reqs += x_c10.hostile_block()
+        # storage states that only a crash produces: a server process died inside a write request, time passed
+        reqs += x_c10.debris_requests(_random.Random(seed ^ 0x5EED), n(3, 40), tag=name.replace("_", ""))
         if adv:
             # every read request kind at least once: appended deterministic block
             reqs += fixed_block()
@@ -365,6 +388,15 @@ def run(ctx):
                dict(method="_SLEEP", path="", seconds=0.9, kind="sleep")]
     runs.append(Run("hookbg", "multifilesystem", False, True, bg_reqs, watch_hook_group=True,
                     hook="touch @FOLDER@/hook-ran; (sleep 0.6; touch @FOLDER@/collection-root/.late-job) &"))
+    # the debris stream: (write request of every shape) x (crash point) x (age of the leftovers), then read-only requests.
+    # The oracle is the one of the other runs: the streams are evaluated in Coq and by the three monitors -- a reader
+    # that "tidies up" what an interrupted writer left in a collection folder changes collection data under the shared lock.
+    # (every scenario leaves new collections and leftovers behind, the listings grow: thorough = several fresh stores)
+    dseed = rng.randrange(2 ** 31)
+    for j in range(n(1, 6)):
+        runs.append(Run("debris%d" % j if j else "debris", "multifilesystem", False, True,
+                        [dict(x) for x in setup] + x_c10.debris_requests(_random.Random(dseed + j), n(48, 100), tag="d%d" % j),
+                        rights="owner_only"))
     base = tempfile.mkdtemp(prefix="rv-c10-")
     try:
         ths = [threading.Thread(target=r.execute, args=(base, ctx.n(600, 2400))) for r in runs]
@@ -412,6 +444,13 @@ def evaluate(ctx, runs, base, model_ok, failing_methods):
         for i, (rq, res) in enumerate(zip(run.reqs, run.results)):
             if rq["method"].startswith("_"):
                 ctx.count("pseudo:" + rq["method"])
+                if rq["method"] == "_CRASH" and res.get("crash"):
+                    died, odd = res["crash"]
+                    ctx.count("crash:%s" % ("process died inside the write" if died else "write finished before the crash point"))
+                    if odd:
+                        ctx.count("crash:left temporary names in the collection tree")
+                    ctx.count("crash-age:%ds" % rq.get("age", 0))
+                    ctx.count("crash-victim:%s" % rq["request"]["method"])
                 continue
             api = res["api"]
             locked = any(e[0] == "Acquire" for e in api)
@@ -548,11 +587,23 @@ def shrink(rp, base):
         failing = allr[-1]
         best, best_res = None, None
         res = fails(setup + [failing])
+        crashes = [r for r in middle if r["method"] == "_CRASH"]
         if res:
             best, best_res = [], res
-        else:
+        elif crashes:
+            # the storage state that matters is, most of the time, what one of the crashes before the request left
+            # (possibly aged by a later one): all crashes without the reads in between, then single ones, latest first
+            res = fails(setup + crashes + [failing])
+            if res:
+                middle, best, best_res = crashes, crashes, res
+                for c in reversed(crashes[-6:]):
+                    res = fails(setup + [c] + [failing])
+                    if res:
+                        middle, best, best_res = [c], [c], res
+                        break
+        if best is None or len(best) > 1:
             n = 2
-            while len(middle) > 1 and counter[0] < 14:
+            while len(middle) > 1 and counter[0] < 20:
                 size = max(1, len(middle) // n)
                 reduced = False
                 for k in range(0, len(middle), size):
@@ -562,7 +613,7 @@ def shrink(rp, base):
                         middle, best, best_res, reduced = cand, cand, res, True
                         n = max(2, n - 1)
                         break
-                    if counter[0] >= 14:
+                    if counter[0] >= 20:
                         break
                 if not reduced:
                     if size == 1:
